@@ -6,7 +6,7 @@ import rules_C02 as R2
 import rules_C01 as R1
 
 LEVEL = "other"
-TECHNIQUE = R1.TECHNIQUE + "; result-discipline (must-propagate) rule; twin comparison"
+TECHNIQUE = R1.TECHNIQUE + "; result-discipline (must-propagate) rule; twin comparison as cross-reference"
 EXPLANATION = ("Structural clauses for remap_stacktrace in the mapper and the cache: per-line classification order (first line: throwable, "
                "else frame, else verbatim; later lines: frame, else 'Caused by: '+throwable, else verbatim) equals the reference on every "
                "canonical path; every path through the per-line body performs exactly one output operation built from the line or its "
